@@ -13,15 +13,17 @@ from harness import core, values as V, diffcommon as D, deltacommon as DC
 
 THEOREM_FILE = "Properties/C01.v"
 COQCHK = ["Properties.C01"]
+COQ_NEEDS = []
 RULE = ("pairs (t1,t2): exhaustive small universe (atoms {None,True,2,0.5,'a',''}, containers list/dict/set of length <= 2, depth <= 2; "
         "thorough: all ordered pairs, quick: seeded slice), random nested values with 1-3 edits, atom lists (length <= 12, 4-atom alphabet, "
         "insert/delete/replace/move/duplicate/rotate) planted under 0-2 container levels, edit chains of length <= 6; "
         "x zip_ordered_iterables x threshold {0,0.33,0.9} x verbose {0,1,2} x view {text,tree} x always_include_values. "
         "Non-trivial = t1 != t2 (non-empty delta); distinct by (t1,t2,config).")
-TRUSTED = ["difflib opcodes, unified-diff text, DeepHash of set members, Python's constructor calls new_type(old_value) (conv) and the order of the "
-           "sorted() passes of Delta enter the model as oracles; the harness feeds the model what the implementation uses",
+TRUSTED = ["difflib opcodes, unified-diff text, DeepHash of set members, Python's constructor calls new_type(old_value) (conv), the order of the "
+           "sorted() passes of Delta and (ignore_order clause) the pairing of _get_most_in_common_pairs_in_iterables enter the model as oracles; "
+           "the harness feeds the model what the implementation uses",
            "delta paths are strings re-parsed by Delta; the model works on the parsed key sequences (C09 relates the two for well-behaved keys)",
-           "numpy arrays and the ignore_order clause are not modelled: direct oracle only"]
+           "numpy arrays: NaN, dtype changes and shape changes are outside the model Delta/DeltaNp.v (probe counters only)"]
 ASSUMPTIONS = ["tree-shaped inputs; floats are half-integers; tuples hold scalars only (findings F4/F6); no ==-equal atoms of different type (finding KA)"]
 
 THRS = (0, 0.33, 0.9)
@@ -77,31 +79,67 @@ def _inputs(case):
 
 
 INPUT_MODIFIED = "an input was modified"
+# the clause of the statement a failing case violates (recorded in every case by `oracle`)
+RAISED, DIFFERS, LOGGED = "raised", "result differs from t2", "an error was logged"
+
+
+def _refuse(case):
+    """a finding is never about modified inputs (seeded C01-7), about numpy arrays, about inputs with shared
+    sub-objects (outside the quantifier), about the ignore-order clause, or about a chain step at which the
+    constructor hypothesis okb was observed to hold (there F7's mechanism cannot be the cause)"""
+    return (case.get("clause") == INPUT_MODIFIED or case.get("numpy") or case.get("shared")
+            or dict(case.get("cfg", {})).get("ignore_order"))
 
 
 def m_tuple_container(case, holds_fn=None):
-    """a container that is an item of a tuple has to be edited: passes once tuples are lists"""
-    if not case.get("container_in_tuple") or case.get("clause") == INPUT_MODIFIED:
+    """F4: a container that is an item of a tuple has to be edited.  Predicted outcome: the write into the parent
+    tuple fails - logged ('tuple' object does not support item assignment -> result differs / error logged) or
+    RuntimeError / TypeError raised.  Attributed only if the case passes once tuples are lists."""
+    if not case.get("container_in_tuple") or _refuse(case):
+        return False
+    if case.get("clause") == RAISED and case.get("exc_class") not in ("RuntimeError", "TypeError", "AttributeError", "DeltaError"):
         return False
     t1, t2, cfg, always = _inputs(case)
     return (holds_fn or holds)(detuple(t1), detuple(t2), cfg, always)
 
 
 def m_alias(case, holds_fn=None):
-    """numerically equal atoms of different type co-occur: passes once they are made distinct"""
-    if not case.get("alias") or case.get("clause") == INPUT_MODIFIED:
+    """KA: numerically equal atoms of different type co-occur.  Predicted outcome: a wrong RESULT (the alias is
+    taken for the other atom: set union/difference, == in difflib / _do_item_removed), sometimes with an error logged or
+    a KeyError / IndexError / ValueError raised when the aliased key is not found.  Attributed only if the
+    case passes once the aliased atoms are made distinct."""
+    if not case.get("alias") or _refuse(case):
+        return False
+    if case.get("clause") == RAISED and case.get("exc_class") not in ("KeyError", "IndexError", "ValueError", "TypeError", "DeltaError"):
         return False
     t1, t2, cfg, always = _inputs(case)
     return (holds_fn or holds)(dealias(t1), dealias(t2), cfg, always)
 
 
+def has_retype(t1, t2):
+    """some paired position (lists positionally, dicts by key) changes its container type, or a scalar becomes a
+    container / vice versa: the only places where new_type(old_value) is called with the values omitted"""
+    if type(t1) is type(t2):
+        if isinstance(t1, (list, tuple)):
+            return any(has_retype(x, y) for x, y in zip(t1, t2))
+        if isinstance(t1, dict):
+            return any(has_retype(t1[k], t2[k]) for k in t1 if k in t2)
+        return False
+    return isinstance(t1, (list, tuple, dict, set, frozenset)) or isinstance(t2, (list, tuple, dict, set, frozenset))
+
+
 def m_unordered_conv(case, holds_fn=None):
-    """a type change whose values were omitted although new_type(old_value) does not reproduce the new
-    value with its types (set/frozenset -> list/tuple iteration order; nested set vs frozenset):
-    passes once the values are always included"""
-    if case.get("always_include_values") or case.get("clause") == INPUT_MODIFIED:
+    """F7: a type change whose values were omitted although new_type(old_value) does not reproduce the new
+    value with its types (set/frozenset -> list/tuple iteration order; nested set vs frozenset).  Predicted
+    outcome: a wrong RESULT without any error (the constructor call succeeds).  Attributed only if a container
+    type change is present, nothing was raised or logged, and the case passes once the values are always included"""
+    if case.get("always_include_values") or _refuse(case) or case.get("okb"):
+        return False
+    if case.get("clause") in (RAISED, LOGGED):
         return False
     t1, t2, cfg, always = _inputs(case)
+    if not has_retype(t1, t2):
+        return False
     return (holds_fn or holds)(t1, t2, cfg, True)
 
 
@@ -131,8 +169,9 @@ def in_guard(t1, t2):
 
 # ---- one (t1, t2, config) ---------------------------------------------------
 
-def run_impl(t1, t2, cfg, always, bidir=False):
-    """returns dict(result|exc, errors_logged, inputs_unmodified, delta, tree)"""
+def run_impl(t1, t2, cfg, always, bidir=False, radd=False):
+    """returns dict(result|exc, errors_logged, inputs_unmodified, delta, tree); radd: delta + t1 (Delta.__radd__ is
+    __add__: both operand orders are accepted shapes of the same call)"""
     from deepdiff import DeepDiff, Delta
     a, b = copy.deepcopy(t1), copy.deepcopy(t2)
     sa, sb = V.canon(a), V.canon(b)
@@ -141,7 +180,7 @@ def run_impl(t1, t2, cfg, always, bidir=False):
         dd = DeepDiff(a, b, **cfg)
         d = Delta(dd, always_include_values=always, bidirectional=bidir, mutate=False)
         with DC.Counting() as cnt:
-            r = a + d
+            r = (d + a) if radd else (a + d)
         out.update(result=r, errors=cnt.n, delta=d, dd=dd)
     except Exception as e:
         out.update(exc=e)
@@ -149,18 +188,21 @@ def run_impl(t1, t2, cfg, always, bidir=False):
     return out
 
 
-def oracle(ctx, t1, t2, cfg, always, out):
+def oracle(ctx, t1, t2, cfg, always, out, extra=None):
     case = dict(t1=repr(t1), t2=repr(t2), cfg={k: v for k, v in cfg.items()}, always_include_values=always, **describe(t1, t2))
+    case.update(extra or {})
     if "exc" in out:
         case["observed"] = "raised %s: %s" % (type(out["exc"]).__name__, str(out["exc"])[:200])
-        ctx.fail(case, "t1 + Delta(DeepDiff(t1,t2)) raised " + type(out["exc"]).__name__)
+        ctx.fail(dict(case, clause=RAISED, exc_class=type(out["exc"]).__name__), "t1 + Delta(DeepDiff(t1,t2)) raised " + type(out["exc"]).__name__)
+        if not out["unmodified"]:
+            ctx.fail(dict(case, observed=INPUT_MODIFIED, clause=INPUT_MODIFIED), "DeepDiff/Delta modified an input (mutate=False)")
         return False
     ok = True
     if not V.typed_eq(out["result"], t2):
-        ctx.fail(dict(case, observed=repr(out["result"])), "t1 + Delta(DeepDiff(t1,t2)) != t2")
+        ctx.fail(dict(case, observed=repr(out["result"]), clause=DIFFERS, errors=out["errors"]), "t1 + Delta(DeepDiff(t1,t2)) != t2")
         ok = False
     elif out["errors"]:
-        ctx.fail(dict(case, observed="%d error(s) logged while applying" % out["errors"]), "applying the delta to its own t1 logged an error")
+        ctx.fail(dict(case, observed="%d error(s) logged while applying" % out["errors"], clause=LOGGED), "applying the delta to its own t1 logged an error")
         ok = False
     if not out["unmodified"]:
         # no known finding is about modified inputs: the matchers refuse this clause (seeded C01-7)
@@ -240,9 +282,12 @@ def one_pair(ctx, t1, t2, cases, full=False, corr=True, hyp_cases=None):
     ctx.count("in_model_guard" if guard else "outside_model_guard")
     for zip_, thr, verbose, view, always in configs(ctx.rng, full):
         cfg = dict(zip_ordered_iterables=zip_, threshold_to_diff_deeper=thr, verbose_level=verbose, view=view)
-        out = run_impl(t1, t2, cfg, always)
+        radd = ctx.rng.random() < 0.25
+        if radd:
+            ctx.count("operand_order:delta_plus_t1")
+        out = run_impl(t1, t2, cfg, always, radd=radd)
         ctx.seen((repr(t1), repr(t2), zip_, thr, verbose, view, always), nontrivial=not V.typed_eq(t1, t2))
-        oracle(ctx, t1, t2, cfg, always, out)
+        oracle(ctx, t1, t2, cfg, always, out, extra=dict(radd=True) if radd else None)
         g = observe_guards(ctx, t1, t2, guard, always)
         if corr and guard and "exc" not in out:
             # the delta does not depend on verbose/view: one model case per (zip, thr, always)
@@ -389,16 +434,20 @@ def veq_base_clause(ctx, pairs, n):
     ctx.coq_cases("c01v", DC.HDR, cases, shard=60, label="payload+apply on a reordered base")
 
 
-def plant_ld(rng, depth, pair):
-    """wrap (a, b) identically into `depth` levels of list / dict (no tuples)"""
+def plant_ld(rng, depth, pair, dict_only=False):
+    """wrap (a, b) identically into `depth` levels of list / dict (no tuples); dict_only: dict levels only (the domain of
+    C01_ignore_order_perm_at_path_partial)"""
     a, b = pair
     for _ in range(depth):
-        if rng.random() < 0.5:
+        if (not dict_only) and rng.random() < 0.5:
             pre = [V.gen_atom(rng) for _ in range(rng.randint(0, 2))]
             a, b = copy.deepcopy(pre) + [a], copy.deepcopy(pre) + [b]
         else:
             key = rng.choice(["k", "k2", 1, 2.5, None])
-            a, b = {key: a, "z": 0}, {key: b, "z": 0}
+            if rng.random() < 0.5:
+                a, b = {key: a, "z": 0}, {key: b, "z": 0}
+            else:
+                a, b = {"z": 0, key: a}, {"z": 0, key: b}
     return a, b
 
 
@@ -434,16 +483,25 @@ def ignore_order_clause(ctx, n):
             b = rng.sample(pool, rng.randint(0, 7))
         if V.contains_alias(a, b):
             continue
-        depth = rng.choice([0, 0, 1, 2])
-        t1, t2 = plant_ld(rng, depth, (a, b))
+        depth = rng.choice([0, 0, 1, 2, 3])
+        dict_only = rng.random() < 0.5
+        t1, t2 = plant_ld(rng, depth, (a, b), dict_only)
         if V.contains_alias(t1, t2) or not D.in_model_guard(t1, t2):
             t1, t2, depth = a, b, 0
+        # C01_ignore_order_perm_partial covers the root, C01_ignore_order_perm_at_path_partial every path through dict levels
+        # (keys not hidden: plant_ld never uses a '__' key); list levels are covered by correspondence + direct oracle only
+        path = D_path_to(t1, a)
+        ctx.count("ignore_order_domain:" + ("root_theorem" if not path else
+                                            "at_path_theorem(dict_levels)" if all(isinstance(_at_prefix(t1, path, i), dict) for i in range(len(path)))
+                                            else "list_level(correspondence_only)"))
         try:
             dd, d, r, nerr, tbl = io_run(t1, t2)
             x = r
-            for step in D_path_to(t1, a):
+            for step in path:
                 x = x[step]
-            good = isinstance(x, list) and sorted(map(repr, map(V.canon_atom, x))) == sorted(map(repr, map(V.canon_atom, b))) and nerr == 0
+            # the list at the path holds t2's items in some order, nothing else of the value differs from t2, nothing logged
+            good = (isinstance(x, list) and sorted(map(repr, map(V.canon_atom, x))) == sorted(map(repr, map(V.canon_atom, b))) and nerr == 0
+                    and V.typed_eq(_blank_at(r, path), _blank_at(t2, path)))
         except Exception as e:
             good, r, d = False, "raised %s: %s" % (type(e).__name__, e), None
         ctx.seen(("io", repr(t1), repr(t2)), nontrivial=a != b)
@@ -465,6 +523,154 @@ def ignore_order_clause(ctx, n):
     ctx.coq_cases("c01io", DC.IO_HDR, cases, shard=16, label="ignore_order payload+apply")
 
 
+def _canon_nested_unordered(v):
+    """nested lists up to the order of their items (at every level)"""
+    if isinstance(v, list):
+        return ["L", sorted((_canon_nested_unordered(x) for x in v), key=repr)]
+    return V.canon_atom(v)
+
+
+def ignore_order_beyond(ctx, n):
+    """BEYOND the property's text (it speaks of lists of distinct scalars): lists WITH repetitions and NESTED
+    ignore-order lists.  The statement is false there (C01_ignore_order_repetition_refuted / _nested_refuted, both
+    observed on the implementation first); what is checked is that the model Delta/DeltaIO.v + DiffIO does what the
+    implementation does (correspondence of payload + rebuilt result), and how often the result is t2 up to order is
+    counted.  Runs inside ctx.extension: recorded in the evidence file, never a violation."""
+    from harness.props import c05 as C5
+    rng = ctx.rng
+    cases = []
+    fixed = [([3, 3], [1]), ([[], [8]], [[], [39, 24], [8, 16]]), ([1, 1, 2], [1, 2, 2]), ([[1, 2], [3]], [[3], [2, 1]])]
+    for k in range(n):
+        if k < len(fixed):
+            a, b = copy.deepcopy(fixed[k])
+            kind = "fixed"
+        elif rng.random() < 0.5:
+            pool = [1, 2, 3, "a", None]
+            a = [rng.choice(pool) for _ in range(rng.randint(0, 5))]
+            b = [rng.choice(pool) for _ in range(rng.randint(0, 5))]
+            kind = "repetition"
+        else:
+            nums = rng.sample(range(1, 60), 40)
+            it = iter(nums)
+            a = [[next(it) for _ in range(rng.randint(0, 3))] if rng.random() < 0.6 else next(it) for _ in range(rng.randint(0, 4))]
+            b = copy.deepcopy(a)
+            for _ in range(rng.randint(1, 3)):
+                r = rng.random()
+                if r < 0.3:
+                    rng.shuffle(b)
+                elif r < 0.5 and b:
+                    b.pop(rng.randrange(len(b)))
+                elif r < 0.7:
+                    b.insert(rng.randint(0, len(b)), next(it) if rng.random() < 0.5 else [next(it), next(it)])
+                else:
+                    ls = [x for x in b if isinstance(x, list)]
+                    if ls:
+                        l = rng.choice(ls)
+                        rr = rng.random()
+                        if rr < 0.4:
+                            rng.shuffle(l)
+                        elif rr < 0.7 and l:
+                            l.pop()
+                        else:
+                            l.append(next(it))
+            kind = "nested"
+        if V.contains_alias(a, b) or not D.in_model_guard(a, b):
+            continue
+        ctx.seen(("io_beyond", repr(a), repr(b)), nontrivial=a != b)
+        try:
+            dd, d, r, nerr, tbl = io_run(a, b)
+        except Exception as e:
+            ctx.count("ignore_order_beyond:%s:raised_%s" % (kind, type(e).__name__))
+            continue
+        up_to_order = _canon_nested_unordered(r) == _canon_nested_unordered(b) and nerr == 0
+        ctx.count("ignore_order_beyond:%s:%s" % (kind, "t2_up_to_order" if up_to_order else "NOT_t2_up_to_order"))
+        rem, add = DC.impl_orders(d)
+        conv = DC.conv_table(DC.type_change_pairs(dd.tree))
+        expr = DC.model_io_expr(a, b, 0.33, True, C5.coq_pairs_table(tbl), conv, rem, add, a)
+        exp = [DC.delta_io_obs(d.diff), [DC.canon_unordered(r), nerr > 0]]
+        cases.append((expr, exp, dict(t1=repr(a), t2=repr(b), ignore_order=True, report_repetition=True, kind=kind)))
+    ctx.coq_cases("c01iox", DC.IO_HDR, cases, shard=30, label="ignore_order beyond the text: repetitions / nested (extension)")
+
+
+def share_again(rng, v):
+    """a copy of v in which ONE list / dict sub-object occurs a second time (the same object): appended to a list or
+    stored under a fresh key of a dict that does not lie inside it; (copy, False) if v has no such pair"""
+    v = copy.deepcopy(v)
+    pos = [p for p in V.positions(v) if isinstance(V.get_at(v, p), (list, dict))]
+    rng.shuffle(pos)
+    for p in pos:
+        if not p:
+            continue
+        c = V.get_at(v, p)
+        hosts = [q for q in pos if q[:len(p)] != p]
+        rng.shuffle(hosts)
+        for q in hosts:
+            h = V.get_at(v, q)
+            if isinstance(h, list):
+                h.insert(rng.randint(0, len(h)), c)
+                return v, True
+            if isinstance(h, dict) and "shared" not in h:
+                h["shared"] = c
+                return v, True
+    return v, False
+
+
+def shared_inputs_beyond(ctx, n):
+    """BEYOND the property's quantifier (it ranges over tree-shaped values: 'no mutable object shared between two
+    positions'): ONE container object occurring at two positions of t2 (the delta then carries the same object
+    twice) or of t1 (deepcopy keeps the sharing: an edit of one position edits the other).  With the sharing in t2 only
+    the statement is expected to hold; with sharing in t1 it holds when no edit touches the shared object.  Outcomes are
+    counted; runs inside ctx.extension: recorded, never a violation."""
+    import pickle
+    rng = ctx.rng
+    done = 0
+    for _ in range(8 * n):
+        if done >= n:
+            break
+        t1 = V.gen_value(rng, depth=rng.choice([3, 4]), width=4, kinds="LLDD")
+        vals, _kinds = V.edit_script(rng, t1, rng.randint(1, 3), alias=False)
+        t2 = vals[-1]
+        side = rng.choice(["t2", "t2", "t1"])
+        if side == "t2":
+            t2s, ok = share_again(rng, t2)
+            t1s = t1
+        else:
+            t1s, ok = share_again(rng, t1)
+            t2s = t2
+        if not ok or not in_guard(t1s, t2s):
+            continue
+        done += 1
+        zip_, thr, always = rng.random() < 0.5, rng.choice(THRS), rng.random() < 0.3
+        cfg = dict(zip_ordered_iterables=zip_, threshold_to_diff_deeper=thr)
+        # inputs rebuilt by pickle so that the sharing survives the copies run_impl takes (copy.deepcopy keeps it as well)
+        blob = pickle.dumps((t1s, t2s))
+        a, b = pickle.loads(blob)
+        out = run_impl(a, b, cfg, always)
+        ctx.seen(("shared", side, repr(t1s), repr(t2s), zip_, thr, always), nontrivial=not V.typed_eq(t1s, t2s))
+        good = "exc" not in out and V.typed_eq(out["result"], t2s) and not out["errors"] and out["unmodified"]
+        ctx.count("shared_beyond:%s:%s" % (side, "holds" if good else "fails"))
+        if not good and side == "t2":      # with the sharing in t1 an edit of one position edits the other: failures are expected, counted only
+            oracle(ctx, t1s, t2s, cfg, always, out, extra=dict(shared=side, pickle=blob.hex()))
+
+
+def _blank_at(v, path):
+    """a copy of v with the sub-value at path replaced by None"""
+    v = copy.deepcopy(v)
+    if not path:
+        return None
+    x = v
+    for st in path[:-1]:
+        x = x[st]
+    x[path[-1]] = None
+    return v
+
+
+def _at_prefix(v, path, i):
+    for st in path[:i]:
+        v = v[st]
+    return v
+
+
 def D_path_to(t1, leaf):
     """keys from the root of a planted value down to the planted list (the last item of a list level, the first
     key of a dict level)"""
@@ -474,7 +680,7 @@ def D_path_to(t1, leaf):
             out.append(len(v) - 1)
             v = v[-1]
         elif isinstance(v, dict):
-            k = next(iter(v))
+            k = next((kk for kk, x in v.items() if isinstance(x, (list, dict))), next(iter(v)))   # the planted key (the sibling 'z' holds 0)
             out.append(k)
             v = v[k]
         else:
@@ -551,6 +757,21 @@ def run(ctx):
     tuple_length_probe(ctx)
     witnesses(ctx)
 
+    # chains on the RUNNING result: the hypothesis chain_okv_run of C01_chain_veq_run_partial evaluated as a Coq boolean
+    # on every step and compared with its Python mirror (Delta/DeltaChainRun.v, harness/c01chain.py)
+    from harness import c01chain
+    c01chain.stream(ctx)
+
+    # numpy arrays "edited in place" (same shape, same numeric dtype): direct oracle + correspondence with Delta/DeltaNp.v
+    from harness import c01np
+    c01np.stream(ctx)
+
+    # beyond the property's text / quantifier: recorded, never a violation
+    with ctx.extension("IgnoreOrderBeyondText"):
+        ignore_order_beyond(ctx, 300 if ctx.thorough else 40)
+    with ctx.extension("SharedSubObjects"):
+        shared_inputs_beyond(ctx, 400 if ctx.thorough else 60)
+
     # extension: class instances (attributes) inside the same models - beyond the property's stated domain,
     # recorded in the evidence file, never a violation (core.Ctx.extension; coq/theories/Obj)
     with ctx.extension("Obj"):
@@ -579,7 +800,10 @@ def witnesses(ctx):
 
 def replay(ctx, data):
     case = data.get("case", {})
-    if "t1" in case and "chain" not in case:
+    if case.get("numpy"):
+        from harness import c01np
+        c01np.replay(ctx, case)
+    elif "t1" in case and "chain" not in case:
         t1, t2 = eval(case["t1"]), eval(case["t2"])
         cfg = dict(case.get("cfg", {}))
         if cfg.get("ignore_order"):
